@@ -11,9 +11,10 @@ for m in metas:
     rows.append('| %s | %s | %s | %s |' % (m['id'], (m.get('change') or '')[:110].replace('|', '\\|'), st, why))
 det = sum(1 for m in metas if m.get('status') == 'detected')
 und = sum(1 for m in metas if m.get('status') == 'undecided')
-other = len(metas) - det - und
-head = '**%d changes: %d detected (exit 1, failing obligation named), %d undecided (exit 2), 0 missed%s.**' % (
-    len(metas), det, und, (', %d not a violation of the property it was written for (see its row)' % other) if other else '')
+missed = sum(1 for m in metas if m.get('status') == 'NOT DETECTED')
+other = len(metas) - det - und - missed
+head = '**%d changes: %d detected (exit 1, failing obligation named), %d undecided (exit 2), %d missed%s.**' % (
+    len(metas), det, und, missed, (', %d not a violation of the property it was written for (see its row)' % other) if other else '')
 table = head + '\n(Obligation ids are shown as they appear in the replay file names: `/` and `#` as `_`.)\n\n| id | change | verdict | failing obligation(s) / why undecided |\n|---|---|---|---|\n' + '\n'.join(rows) + '\n'
 p = '/verif/DESIGN.md'
 s = open(p).read()
